@@ -100,7 +100,7 @@ pub fn run_mode(ctx: &mut Ctx, mode: Mode) -> Result<(), Violation> {
         Tier::Thorough => (0..=200).collect(),
     };
     let kinds = [Kind::SecretBox, Kind::Box, Kind::Precalc, Kind::Sealed, Kind::Stream];
-    let fills = ctx.tier.pick(2usize, 4);
+    let fills = ctx.tier.pick(2usize, 10);
     let mut items = vec![];
     for &k in &kinds {
         for &l in &lens {
